@@ -332,6 +332,13 @@ def r14_3(rep: Report, idx: Index) -> None:
                                             for x in ast.walk(l)):
             tests = l.test.values if isinstance(l.test, ast.BoolOp) and isinstance(l.test.op, ast.And) else [l.test]
             loop_vars |= {norm(t_.left) for t_ in tests if isinstance(t_, ast.Compare)}
+            # a name the loop body gives to the loop variable (an inlined generator's `for a, b in ..`)
+            for x in l.body:
+                if isinstance(x, ast.Assign) and len(x.targets) == 1 and isinstance(x.targets[0], ast.Name) \
+                        and isinstance(x.value, ast.Name) and x.value.id in loop_vars \
+                        and sum(1 for y in ast.walk(fn) if isinstance(y, ast.Name) and y.id == x.targets[0].id
+                                and isinstance(y.ctx, ast.Store)) == 1:
+                    loop_vars.add(x.targets[0].id)
     for n in ast.walk(fn):
         if isinstance(n, ast.If) and re.search(r"version'?\]? == 0|version == 0", norm(n.test)):
             found += 1
@@ -397,8 +404,12 @@ def r14_4_5(rep: Report) -> None:
     if not loops:
         raise AnalysisError('create_emsg_boxes: no scheduling loop')
     loop = loops[0]
+    # the event time: `presentation_time`, or the loop variable that `presentation_time` names in the body
+    times = {'presentation_time'} | {x.value.id for lp in loops for x in lp.body
+                                     if isinstance(x, ast.Assign) and len(x.targets) == 1
+                                     and norm(x.targets[0]) == 'presentation_time' and isinstance(x.value, ast.Name)}
     steps = [n for lp in loops for n in ast.walk(lp) if isinstance(n, ast.AugAssign)
-             and norm(n.target) == 'presentation_time']
+             and norm(n.target) in times]
     if not steps:
         raise AnalysisError('create_emsg_boxes: no presentation_time step')
     guarded = False
@@ -692,29 +703,32 @@ def _emsg_roles(fn: ast.AST) -> tuple[str, str, str | None, str | None]:
         raise AnalysisError('create_emsg_boxes: the emitting loop is not `while t < end`')
     tvar, end = t0.left.id, t0.comparators[0].id
     start = None
+    # names the loop body gives to the time variable
+    tnames = {tvar} | {x.targets[0].id for x in lp.body if isinstance(x, ast.Assign) and len(x.targets) == 1
+                       and isinstance(x.targets[0], ast.Name) and norm(x.value) == tvar}
     for n in ast.walk(lp):
         if isinstance(n, ast.If) and isinstance(n.test, ast.Compare) and len(n.test.ops) == 1 \
-                and isinstance(n.test.ops[0], ast.Lt) and norm(n.test.left) == tvar \
+                and isinstance(n.test.ops[0], ast.Lt) and norm(n.test.left) in tnames \
                 and isinstance(n.test.comparators[0], ast.Name) \
                 and any(isinstance(x, ast.Continue) for x in n.body):
             start = n.test.comparators[0].id
     if start is None:
         for n in ast.walk(lp):
             if isinstance(n, ast.Assert) and isinstance(n.test, ast.Compare) and len(n.test.ops) == 1 \
-                    and isinstance(n.test.ops[0], ast.GtE) and norm(n.test.left) == tvar \
+                    and isinstance(n.test.ops[0], ast.GtE) and norm(n.test.left) in tnames \
                     and isinstance(n.test.comparators[0], ast.Name):
                 start = n.test.comparators[0].id
     if start is None:
         for n in ast.walk(lp):
             if isinstance(n, ast.If) and isinstance(n.test, ast.Compare) and len(n.test.ops) == 1 \
-                    and isinstance(n.test.ops[0], ast.GtE) and norm(n.test.left) == tvar \
+                    and isinstance(n.test.ops[0], ast.GtE) and norm(n.test.left) in tnames \
                     and isinstance(n.test.comparators[0], ast.Name) \
                     and any(isinstance(x, ast.Call) and (call_name(x) or '').endswith('EventMessageBox')
                             for b_ in n.body for x in ast.walk(b_)):
                 start = n.test.comparators[0].id
     if start is None:
         for n in ast.walk(lp):
-            if isinstance(n, ast.BinOp) and isinstance(n.op, ast.Sub) and norm(n.left) == tvar \
+            if isinstance(n, ast.BinOp) and isinstance(n.op, ast.Sub) and norm(n.left) in tnames \
                     and isinstance(n.right, ast.Name):
                 start = n.right.id
     idvar = None
@@ -948,7 +962,9 @@ def r14_9(rep: Report) -> None:
                 and not st.value.elts and order.get(id(st), 1 << 30) < first_loop:
             exits.append((st, state))
     Flow(Disjunctive(PathCond(upd=upd), cap=256), on_exit=each_exit(on_exit)).run(fn, [PathCond.initial()])
-    if len(exits) < 3:
+    # (each early exit is an obligation; folding redundant exits into the loop condition removes obligations,
+    # not evidence - only the absence of every exit means the function was not understood)
+    if len(exits) < 1:
         raise AnalysisError(f'create_emsg_boxes: only {len(exits)} early exits found')
     S, I, C = 'self.start', 'self.interval', 'self.count'
     # roles: the window end bounds the scheduling loop (`while t < END`), the window start is what
